@@ -623,9 +623,28 @@ def cross(a, b, name=None):
     return _wrap(out)
 
 
-def matmul(a, b, name=None, **kw):
+def matmul(a, b, transpose_a=False, transpose_b=False, adjoint_a=False, adjoint_b=False, name=None, **kw):
+    if kw:
+        raise NotModelled("tf.matmul(%s)" % sorted(kw))
+    if adjoint_a:
+        a, transpose_a = conj(a), True
+    if adjoint_b:
+        b, transpose_b = conj(b), True
     a, b = _arr(a), _arr(b)
+    if transpose_a:
+        a = real_np.swapaxes(a, -1, -2)
+    if transpose_b:
+        b = real_np.swapaxes(b, -1, -2)
     return _wrap(_obj_einsum("...ij,...jk->...ik", a, b))
+
+
+def matvec(a, b, transpose_a=False, name=None, **kw):
+    if kw:
+        raise NotModelled("tf.linalg.matvec(%s)" % sorted(kw))
+    a, b = _arr(a), _arr(b)
+    if transpose_a:
+        a = real_np.swapaxes(a, -1, -2)
+    return _wrap(_obj_einsum("...ij,...j->...i", a, b))
 
 
 def _obj_einsum(expr, *ops):
@@ -916,6 +935,17 @@ def diag_part(x, name=None):
     return _wrap(out)
 
 
+def tensor_diag_part(x, name=None):
+    a = _arr(x)
+    k = a.ndim // 2
+    if a.ndim % 2 or a.shape[:k] != a.shape[k:]:
+        raise ValueError("tensor_diag_part: shape %s is not [D1..Dk, D1..Dk]" % (a.shape,))
+    out = real_np.empty(a.shape[:k], dtype=object)
+    for idx in real_np.ndindex(*out.shape):
+        out[idx] = a[idx + idx]
+    return _wrap(out)
+
+
 def one_hot(indices, depth, dtype=None, **kw):
     idx = real_np.asarray(indices.numpy() if isinstance(indices, STensor) else indices).astype(int)
     return convert_to_tensor(real_np.eye(depth)[idx])
@@ -1113,6 +1143,33 @@ class _GradientTape:
         return self._one(roots, sources)
 
 
+def _tape_jacobian(self, target, sources, unconnected_gradients=None, **kw):
+    """tape.jacobian(y, x): shape y.shape + x.shape, entry [i.., j..] = d y[i..] / d x[j..]"""
+    if kw:
+        raise NotModelled("tf.GradientTape.jacobian(%s)" % sorted(kw))
+    t = _arr(target)
+
+    def one(src):
+        shape, atoms = _source_atoms(src)
+        out = real_np.empty(t.shape + tuple(shape), dtype=object)
+        for idx in real_np.ndindex(*t.shape):
+            e = t[idx]
+            if isinstance(e, tm.C):
+                raise NotModelled("tf.GradientTape on a complex target")
+            row = real_np.empty(len(atoms), dtype=object)
+            for i, at in enumerate(atoms):
+                row[i] = tm.diff([tm._l(e)], {at: tm.ONE})[0]
+            out[idx] = row.reshape(shape) if shape else row[0]
+        return STensor(out)
+
+    if isinstance(sources, (list, tuple)):
+        return [one(s_) for s_ in sources]
+    return one(sources)
+
+
+_GradientTape.jacobian = _tape_jacobian
+
+
 class _ForwardAccumulator:
     """model of tensorflow.python.eager.forwardprop.ForwardAccumulator: acc.jvp(t) is the directional derivative of t along the
     tangents given for the primals (terms.diff with the tangents as seeds)"""
@@ -1267,6 +1324,8 @@ def build():
     la.norm = norm
     la.matmul = matmul
     la.diag_part = diag_part
+    la.tensor_diag_part = tensor_diag_part
+    la.matvec = matvec
     la.einsum = einsum
     la.eye = eye
     tf.linalg = la
